@@ -787,6 +787,45 @@ Definition attr80_window (raw : bytes) : result (option (N * bytes)) :=
   end.
 
 (* ------------------------------------------------------------------ *)
+(* Bounded worker pool / bounded hand-off queue on the receive path:
+   internal/pppoe/dhcpv6.go dispatchDHCPv6 (16-slot dhcp6Sem, the handler runs under the session lock s.mu, every
+   worker needs s.mu before it can finish), internal/pppoe/session.go onIPv6CPUp (raKicks), internal/ipoe
+   forwardToL2GW (l2gwChan).  The code acquires a slot with `select { case sem <- x: default: drop }`.
+   [blocking = true] is the "wait instead of drop" alternative (`sem <- x`), modelled to show what it would do. *)
+Inductive pevent := Arrive | Finish.             (* a frame reaches the handler / a worker completes *)
+Inductive poutcome := Dispatched | Dropped | Blocked | Finished | Idle.
+Record pstate := mkPS { ps_busy : N;             (* slots in use *)
+                        ps_stuck : bool }.       (* a handler waits for a slot while holding the session lock *)
+Definition pool_step (blocking : bool) (cap : N) (s : pstate) (e : pevent) : pstate * poutcome :=
+  if ps_stuck s then (s, Blocked)   (* the lock is never released: no later handler and no worker makes progress *)
+  else match e with
+       | Arrive =>
+         if ps_busy s <? cap then (mkPS (ps_busy s + 1) false, Dispatched)
+         else if blocking then (mkPS (ps_busy s) true, Blocked)
+         else (s, Dropped)
+       | Finish =>
+         if 0 <? ps_busy s then (mkPS (ps_busy s - 1) false, Finished) else (s, Idle)
+       end.
+Fixpoint pool_run (blocking : bool) (cap : N) (s : pstate) (evs : list pevent) : pstate * list poutcome :=
+  match evs with
+  | [] => (s, [])
+  | e :: r => let '(s1, o) := pool_step blocking cap s e in
+              let '(s2, os) := pool_run blocking cap s1 r in (s2, o :: os)
+  end.
+Definition pool0 := mkPS 0 false.
+Definition count_out (o : poutcome) (l : list poutcome) : N :=
+  N.of_nat (length (filter (fun x => match x, o with
+                                     | Dispatched, Dispatched | Dropped, Dropped | Blocked, Blocked
+                                     | Finished, Finished | Idle, Idle => true | _, _ => false end) l)).
+(* the harness scenario: n frames while every worker is held, then all workers are released *)
+Definition pool_burst (cap n : N) : list tok :=
+  let '(s1, os1) := pool_run false cap pool0 (repeat Arrive (N.to_nat n)) in
+  let returned := n - count_out Blocked os1 in
+  let accepted := count_out Dispatched os1 in
+  let '(s2, os2) := pool_run false cap s1 (repeat Finish (N.to_nat accepted)) in
+  [TN returned; TN accepted; tbool (negb (ps_stuck s1)); tbool (ps_busy s2 =? 0)].
+
+(* ------------------------------------------------------------------ *)
 (* one entry point for the driver: entry id, numeric arguments, byte-string arguments *)
 Definition arg (k : nat) (l : list N) : N := nth k l 0.
 Definition barg (k : nat) (l : list bytes) : bytes := nth k l [].
@@ -871,5 +910,6 @@ Definition run (v : variant) (entry : N) (na : list N) (ba : list bytes) : resul
   if entry =? 50 then (rmap (fun cr => [tob (fst cr); tob (snd cr)]) (parse_sub82 b)) else
   if entry =? 51 then (rmap pkt4_toks (dhcp_parse b)) else
   if entry =? 52 then (rmap msg4_toks (parse_message4 b)) else
+  if entry =? 70 then Ok (pool_burst (arg 0 na) (arg 1 na)) else
   if entry =? 60 then (rmap (fun o => match o with None => [TNil] | Some (off, w) => [TN off; TB w] end) (attr80_window b)) else
   Err 99.
